@@ -5,7 +5,7 @@ HERE = os.path.dirname(os.path.dirname(os.path.abspath(__file__)))
 
 CHECKS = {
  "C01": dict(cat="exploration", technique="property-based testing (Hypothesis): typed-value generator + round-trip oracle",
-   text="Hypothesis generates metamodel-valid typed values for every root type; parse->serialise is compared with the input under the documented null rule by an oracle derived from lsp.json, not from the package. Sampling of an infinite value space with measured class coverage; no proof of absence.",
+   text="Hypothesis generates metamodel-valid typed values for every root type; parse->serialise is compared with the input under the documented null rule by an oracle derived from lsp.json, not from the package. Sampling of an infinite value space with measured class coverage; no proof of absence. Adds routed cases for every union alternative at its use sites, member-order variation of every generated object, deep chains at self-recursive positions and (thorough) coverage-guided atheris campaigns over the same strategy.",
    note="trusted: lspverif/refmodel.py reading of lsp.json; optional non-special `p: null` == absent; generator depth<=5, collections<=3", ref="3/C01"),
  "C02": dict(cat="exploration", technique="property-based testing (Hypothesis): constructor path vs exact normal form + fix-point",
    text="Hypothesis-generated typed values are turned into nested constructor calls; the serialised object must equal the normal form NF(tv) computed from lsp.json exactly (both directions), and parse+serialise of that output must be a fix-point. Sampling with measured coverage.",
@@ -20,10 +20,10 @@ CHECKS = {
    text="All 95 methods x 7 facets and all registry names are enumerated and compared with relations derived from lsp.json; complete for the finite domain.",
    note="trusted: message-class naming rule and UPPER_SNAKE derivation re-implemented in refmodel.py", ref="3/C09"),
  "C15": dict(cat="exploration", technique="property-based testing (Hypothesis): metamorphic insertion of undeclared keys",
-   text="Metamorphic: generated valid values get fresh undeclared keys with arbitrary JSON payloads at generated protocol-object nodes; result object and re-serialisation must be unchanged.",
+   text="Metamorphic: generated valid values get fresh undeclared keys with arbitrary JSON payloads at generated protocol-object nodes; result object and re-serialisation must be unchanged. Names include node-relative respellings (snake/kebab/Pascal...) of the node's own properties and names meaningful to Python.",
    note="fresh = declared nowhere in the metamodel; payload/map positions excluded", ref="3/C15"),
  "C20": dict(cat="exploration", technique="exhaustive boundary grid + Hypothesis random pairs against tuple comparison",
-   text="625 grid pairs x 6 operators exhaustively, random uinteger pairs, ranges/locations, foreign objects; oracle is Python tuple comparison and the stated repr format.",
+   text="625 grid pairs x 6 operators exhaustively, random uinteger pairs, ranges/locations, foreign objects; oracle is Python tuple comparison and the stated repr format. Operands and nested components that are instances of derived classes, and a mutation state machine.",
    note="coordinates are valid uintegers", ref="3/C20"),
 
  "C10": dict(cat="exploration", technique="exhaustive over attributes x Hypothesis-generated surroundings; null-vs-omitted oracle from lsp.json",
@@ -33,7 +33,7 @@ CHECKS = {
    text="Exhaustive over root-level (structure, property, edit) triples with generated surroundings plus random nested edit sites; each of the four stated edits must make structuring raise.",
    note="edit sites never lie below a real union; CompletionItemKind is open (documented customisation)", ref="3/C11"),
  "C12": dict(cat="exploration", technique="exhaustive boundary grid x attributes + Hypothesis ints; range predicate oracle at both entry points; validator fuzzing",
-   text="All directly integer-typed attributes x the boundary set exhaustively and random ints through constructor and converter (same verdict, equal to the range predicate); the two validator functions with arbitrary Python values.",
+   text="All directly integer-typed attributes x the boundary set exhaustively and random ints through constructor and converter (same verdict, equal to the range predicate); the two validator functions with arbitrary Python values. Numbers are also given as int-subclass instances and as members of the package's integer enumerations.",
    note="bool excluded from the int verdict", ref="3/C12"),
  "C13": dict(cat="exploration", technique="exhaustive enumeration of enum values and use sites + Hypothesis custom/outside values",
    text="Static comparison of all enumerations (multiset of values, both directions) and, at every use site and root, every declared value must parse/round-trip, custom values for open enumerations, outside values rejected for closed ones when no reading makes the root valid.",
@@ -43,7 +43,7 @@ CHECKS = {
    note="partialResult/errorData unions have no typed surface in the package and are listed as unreachable in the evidence", ref="3/C14"),
 
  "C05": dict(cat="exploration", technique="exhaustive differential: fresh generator output vs committed files, statement/item aligned, under generated hash seeds",
-   text="The python and rust plugins are run from the working tree under Hypothesis-drawn PYTHONHASHSEEDs; all 795 statements of types.py (AST modulo docstring whitespace) and all items of lib.rs (byte-identical after rustfmt) are compared both ways with the committed files. Complete for the finite domain.",
+   text="The python and rust plugins are run from the working tree under Hypothesis-drawn PYTHONHASHSEEDs; all 795 statements of types.py (AST modulo docstring whitespace) and all items of lib.rs (byte-identical after rustfmt) are compared both ways with the committed files. Complete for the finite domain. The same comparison is applied to whatever a single invocation with several or no --plugin options writes.",
    note="rustfmt --edition 2021 stands for the build's formatter; no ruff offline, so Python is compared as AST with docstrings line-stripped", ref="3/C05"),
  "C07": dict(cat="exploration", technique="exhaustive enumeration of emitted Rust items against an independent mapping (text analyser, fail-closed)",
    text="Every item of the lib.rs emitted from the working tree (and of the committed copy) is parsed and compared with an independent re-statement of the mapping: field-name sets under serde's rename rule, type trees, Option wrapping, enum discriminants incl. the hand-written impls, untagged aliases, message structs, method enums, feature gates; both directions.",
@@ -56,17 +56,17 @@ CHECKS = {
    note="validator's lenient choices (open empty objects, result+error, null params only when undeclared) are stated in the evidence", ref="3/C17"),
 
  "C06": dict(cat="exploration", technique="property-based testing over generated programs (Hypothesis edit sequences on the metamodel) with the other properties' oracles re-instantiated",
-   text="Metamodels are generated as schema-valid edit sequences of lsp.json and given to all four plugins; plugin termination, import of the generated module and the C01-C04/C07-C10/C17 oracles are evaluated for the evolved model. Samples an unbounded family bounded by <=6 edits and the stated type grammar.",
+   text="Metamodels are generated as schema-valid edit sequences of lsp.json and given to all four plugins; plugin termination, import of the generated module and the C01-C04/C07-C10/C17 oracles are evaluated for the evolved model. Samples an unbounded family bounded by <=6 edits and the stated type grammar. Every evolved document is also cut into two model files at drawn indices (metamorphic: merge is concatenation, the output must not change); standing foci keep one production per past defect.",
    note="grammar excludes general unions, open-enum references and union aliases (they need hand-written hooks); rustfmt acceptance stands for 'parses'", ref="3/C06"),
  "C18": dict(cat="exploration", technique="property-based testing (Hypothesis): read-back/concatenation/equality oracles over generated documents and generated schema-violating edits",
-   text="Generated schema-valid documents (evolved models, schema-directed mutations) are loaded and read back generically; merges compared with list concatenation; structural single edits must compare unequal and comparisons never raise; schema-violating single edits x 4 plugins x position must fail before any plugin runs and write nothing (spy + real CLI sample).",
+   text="Generated schema-valid documents (evolved models, schema-directed mutations) are loaded and read back generically; merges compared with list concatenation; structural single edits must compare unequal and comparisons never raise; schema-violating single edits x 4 plugins x position must fail before any plugin runs and write nothing (spy + real CLI sample). Model files also go through the real command under a non-UTF-8 locale encoding.",
    note="schema-valid = valid against the MetaModel definition; annotation-only edits are not required to be unequal", ref="3/C18"),
 
  "C16": dict(cat="exploration", technique="stateful property-based testing (Hypothesis RuleBasedStateMachine) over output-directory histories x hash seeds",
-   text="Per plugin a state machine runs the real generator CLI repeatedly into one directory with generated model lists, hash seeds and planted stale files; after every run the digest map of the plugin-owned files must equal the fresh-directory reference computed in another process under another hash seed.",
+   text="Per plugin a state machine runs the real generator CLI repeatedly into one directory with generated model lists, hash seeds and planted stale files; after every run the digest map of the plugin-owned files must equal the fresh-directory reference computed in another process under another hash seed. Runs vary working directory, path spelling, search path, clock/user/machine; configuration files of formatters and build tools are planted in the output tree; an in-process history generates again from the same model object.",
    note="owned-file patterns as listed in the evidence; slow plugins use reduced closed sub-models in the quick tier", ref="3/C16"),
  "C19": dict(cat="exploration", technique="harness-owned thread scheduler (sys.settrace yield points, Hypothesis-generated schedules, forked pristine children) + stateful creation histories",
-   text="First-use concurrency is explored under a deterministic scheduler that owns the interleaving at line granularity inside the forward-reference resolution; creation histories over fresh/user-supplied converters are checked by a rule-based state machine against a battery; thorough adds real-thread trials.",
+   text="First-use concurrency is explored under a deterministic scheduler that owns the interleaving at line granularity inside the forward-reference resolution; creation histories over fresh/user-supplied converters are checked by a rule-based state machine against a battery; thorough adds real-thread trials. Schedules continue into each thread's first use (in-thread observations compared); histories contain creations cut short by injected asynchronous exceptions / RecursionError followed by a wide battery; every non-customised configuration is compared with get_converter() on routed values of every union alternative (JSON and object classes).",
    note="switches inside C code are not controlled; outcomes compared as raised/JSON, not exception types; time-outs are inconclusive", ref="3/C19"),
 }
 
